@@ -101,6 +101,18 @@ def single_edits(base):
             var = "\n".join(lines[:i] + [lines[i] + c] + lines[i + 1:])
             feat = "after-for-header-line" if False else ""
             edits.append(("trailing-comment", (i, c), feat, var))
+    # (2') what a comment says: anything up to the line end is comment text - a trailing backslash, quotes, brackets,
+    # statements, keywords, parameters, further # signs, non-ASCII text, tabs
+    for i in range(len(lines) - 1):
+        for c in COMMENT_TEXTS:
+            edits.append(("comment-content:trailing", (i, c), "", "\n".join(lines[:i] + [lines[i] + " " + c] + lines[i + 1:])))
+    for i in range(len(lines)):
+        role = roles[i] if i < len(roles) else "blank"
+        if role == "arrayrow":
+            continue
+        feat = "directly-after-for-header" if role == "loopbody-first" else ("between-loop-body-lines" if role == "loopbody" else "")
+        for c in COMMENT_TEXTS[::2]:
+            edits.append(("comment-content:own-line", (i, c), feat, "\n".join(lines[:i] + [c] + lines[i:])))
     # (3) inserted lines before every line and at end of file, except inside array bodies
     for i in range(len(lines)):
         role = roles[i] if i < len(roles) else "blank"
@@ -111,6 +123,10 @@ def single_edits(base):
             feat = "directly-after-for-header" if role == "loopbody-first" else ("between-loop-body-lines" if role == "loopbody" else "")
             edits.append(("inserted-line:" + tag, (i,), feat, var))
     return edits
+
+
+COMMENT_TEXTS = ["# ends with a backslash \\", "#", "# caf\u00e9 \u03c0 \U0001f642", "# G(9) | 9", "# name z", "## # #", "#\ttab\tseparated", "# 'q' \"unterminated", "# for int i in 0:2",
+                 "# {a} {b}", "# \\n \\t \\\\", "# float array Z =", "#!shebang", "# include \"x.xbb\"", "# a\x0bb\x0cc\x85d\u2028e"]
 
 
 def restyle(text, nl, tab, final):
@@ -208,8 +224,8 @@ def run(ctx):
             Vs.add(key, {"base": name, "text": text}, "%s ;; variant: %r" % (r[1][:200], text[:300]))
     cov = {"evaluations": len(cases), "distinct_nontrivial": len(distinct - set(BASES.values())),
            "rule": "%d base scripts covering every rule that mentions NEWLINE or TAB; edits at EVERY site: spaces at each intra-line token boundary and line end set to 1/2/3 (kept only if the reference tokenizer confirms an unchanged token sequence; "
-                   "boundaries next to indentation excluded), 3 kinds of trailing comment on each line, 5 kinds of inserted line before each line and at end of file (not inside array bodies); x 12 global styles (LF/CRLF/CR x tab/4 spaces x final newline or not) "
-                   "(quick: 3 styles for spacing edits); blank/comment lines before the metadata; pairs of line edits on the short bases. non-trivial = variant text differs from the base; distinct by text" % len(BASES),
+                   "boundaries next to indentation excluded), 3 kinds of trailing comment on each line, %d comment texts (trailing backslash, quotes, statements, keywords, parameters, non-ASCII, other line-boundary characters) trailing on each line and on lines of their own, 5 kinds of inserted line before each line and at end of file (not inside array bodies); x 12 global styles (LF/CRLF/CR x tab/4 spaces x final newline or not) "
+                   "(quick: 3 styles for spacing edits); blank/comment lines before the metadata; pairs of line edits on the short bases. non-trivial = variant text differs from the base; distinct by text" % (len(BASES), len(COMMENT_TEXTS)),
            "samples": [repr(c[1]) for c in common.sample(cases, 4)], "exhaustive": True, "by_edit_kind": dict(per_kind), "base_scripts_not_loading": not_loading, "spacing_edits_skipped_token_change": skipped}
     return {"coverage": cov, "violations": Vs.records(),
             "assumptions": ["a comment line indented by a tab or four spaces produces a TAB token: next to indentation, excluded by the property, not generated", "digest = exact canonical program content incl. variables"]}
